@@ -1021,7 +1021,14 @@ class BaseEvolutionOperations(object):
     def change_column_attr_db_table(self, model, mutation, field, old_value,
                                     new_value):
         """Returns the SQL for changing the table for a ManyToManyField."""
-        return self.rename_table(model, old_value, new_value)
+        # A value of None means the default table name for the field.
+        default_db_table = truncate_name(
+            '%s_%s' % (model._meta.db_table, field.name),
+            self.connection.ops.max_name_length())
+
+        return self.rename_table(model,
+                                 old_value or default_db_table,
+                                 new_value or default_db_table)
 
     def change_column_attrs_db_index_unique(self, model, mutation, field,
                                             old_db_index, new_db_index,
